@@ -109,6 +109,10 @@ func (sp *SolverPool) runOne(ctx context.Context, cfg SolverCfg, file string, ti
 
 // Solve races the solver portfolio on one query.
 func (sp *SolverPool) Solve(query string, wantDefinitive bool) (result SolveResult) {
+	return sp.SolveT(query, sp.timeout)
+}
+
+func (sp *SolverPool) SolveT(query string, timeout float64) (result SolveResult) {
 	h := sha256.Sum256([]byte(query))
 	key := hex.EncodeToString(h[:16])
 	cacheFile := filepath.Join(sp.cacheDir, key)
@@ -159,7 +163,7 @@ func (sp *SolverPool) Solve(query string, wantDefinitive bool) (result SolveResu
 		launched++
 		cfg := sp.cfgs[i]
 		go func() {
-			s, o, d := sp.runOne(ctx, cfg, file, sp.timeout)
+			s, o, d := sp.runOne(ctx, cfg, file, timeout)
 			ch <- res{cfg, s, o, d}
 		}()
 	}
